@@ -189,16 +189,18 @@ class Verdict:
         if self.violations:
             rdir = os.path.join(VERIF, "replays")
             os.makedirs(rdir, exist_ok=True)
-            seen = set()
-            for i, v in enumerate(self.violations[:20]):
+            per = {}
+            shown = 0
+            for i, v in enumerate(self.violations[:200]):
+                key = v["clause"]
+                per[key] = per.get(key, 0) + 1
+                if per[key] > 2 or shown >= 8:
+                    continue
+                shown += 1
                 path = os.path.join(rdir, "%s_%s_%d.json" % (self.pid, tier(), i))
                 with open(path, "w") as f:
                     json.dump({"property": self.pid, "clause": v["clause"], "detail": v["detail"],
                                "replay": v["replay"]}, f, indent=1, default=str)
-                key = v["clause"]
-                if key in seen and i > 3:
-                    continue
-                seen.add(key)
                 print("VIOLATION property=%s replay=%s clause=%s %s" % (self.pid, path, v["clause"], str(v["detail"])[:300]))
             rc = 1
         cov = {"states": max(self.states, 0), "transitions": max(self.transitions, 0),
